@@ -8,7 +8,7 @@
        A coefficient vector minimises the residual sum of squares IFF it satisfies the normal
        equations (convexity identity, no reals); data exactly of the harmonic form are
        reproduced with zero residual; the solution is UNIQUE when the Gram matrix is nonsingular
-       ([nonsingular], a computable predicate: a Gauss-Jordan inverse that is CHECKED by
+       ([nonsingular], a computable predicate: a fraction-free (Bareiss) inverse that is CHECKED by
        computation); hence an exact isophote (constant intensity) has all harmonic amplitudes 0
        and exactly harmonic data are recovered.  The solver used by the correspondence is sound
        and complete under the same predicate.
